@@ -23,6 +23,13 @@ const callTimeout = 60 * time.Second
 const pageLimit = 1000
 const knownPaging = "C12-paging-over-1000"
 
+func (cs *Case) namelessIdx() int {
+	if cs.Nameless == nil {
+		return -1
+	}
+	return *cs.Nameless
+}
+
 // ---- analysis of the generated forest (independent of siglens) -------------------------------
 
 type traceInfo struct {
@@ -1003,7 +1010,7 @@ func runC12(cs *Case, f *forestInfo, o *rec) error {
 		baseNs := now * nsPerMs
 		pos := 0
 		for i, b := range cs.Batches {
-			body, err := buildExport(cs.Services, cs.Spans[pos:pos+b], baseNs)
+			body, err := buildExport(cs.Services, cs.namelessIdx(), cs.Spans[pos:pos+b], baseNs)
 			if err != nil {
 				return pt.Inconclusivef("cannot build export request: %v", err)
 			}
